@@ -210,6 +210,10 @@ theorem readInfo'_stable (cfg : Cfg) (hI : cfg.InflateOk) (t : TCfg) (a r0 : R) 
                 | none => rw [hi2] at h; simp only [Prod.mk.injEq, reduceCtorEq, and_false] at h
                 | some i2 =>
                   rw [hi2] at h
+                  simp only at h
+                  by_cases hfit : sizeFits (t.outColorDepth i2 a2.flags) i.width i.height = true
+                  case neg => rw [if_neg hfit] at h; simp only [Prod.mk.injEq, reduceCtorEq, and_false] at h
+                  rw [if_pos hfit] at h
                   simp only [Prod.mk.injEq, and_true] at h
                   -- the same steps with `L` bytes visible
                   have e0 : (growTo a L).isReader = false := hr
@@ -232,7 +236,9 @@ theorem readInfo'_stable (cfg : Cfg) (hI : cfg.InflateOk) (t : TCfg) (a r0 : R) 
                   simp only
                   rw [if_neg hbig, e4]
                   simp only
-                  rw [e5, ← h]
+                  rw [e5]
+                  simp only
+                  rw [if_pos (show sizeFits (t.outColorDepth i2 (growTo a2 L).flags) i.width i.height = true from hfit), ← h]
                   rfl
 
 /-- the same for `read_info` as the caller sees it -/
